@@ -270,7 +270,7 @@ func labels(c Case) []string {
 		if c.FeatNil {
 			set["Features nil"] = true
 		}
-		if n := max(c.Seq.N, len(c.Seq.Lit)); n >= 65536 {
+		if n := len(c.Seq.String()); n >= 65536 {
 			set["sequence of >= 65536 letters"] = true
 		} else if n >= 4096 {
 			set["sequence of 4096..65535 letters"] = true
@@ -366,7 +366,7 @@ func genValue(t *rapid.T) Case {
 	c.Meta.Other = drawMap(t, "other")
 	c.OtherNil = len(c.Meta.Other) == 0 && rapid.Bool().Draw(t, "other_nil")
 	c.Desc, c.Hash, c.HashFn = tx("description"), tx("hash"), tx("hash_function")
-	c.Seq = vk.DrawSeq(t, "seq", rapid.SampledFrom([]string{"ACGT", "acgtn", "ACGTRYKMSWBDHVN"}).Draw(t, "alphabet"), 0, 300000)
+	c.Seq = vk.DrawSeq(t, "seq", rapid.SampledFrom([]string{"ACGT", "acgtn", "ACGTRYKMSWBDHVN", "ACGU", "ACDEFGHIKLMNPQRSTVWYX*", "ACGT-.", "acgtn-*"}).Draw(t, "alphabet"), 0, 300000)
 	// one value in ten carries a long text field (the JSON text is laid out on lines; long ones matter)
 	if rapid.IntRange(0, 9).Draw(t, "long_text") == 0 {
 		long := "é" + vk.Fill(rapid.Uint64().Draw(t, "long_text_fill"), vk.DrawSize(t, "long_text", 1000, 200000), "abc xyz,.\\\"/")
